@@ -307,7 +307,7 @@ func runsFor(prop, tier string) []run {
 			}(), pick(4, 6), minutes(pickf(0.6, 5))},
 		}
 	case "C18":
-		alpha := []string{"Reg", "Start", "StartWrong", "Add", "AddDup", "Sync", "Verify", "VerifyAny", "W", "R", "Snap", "MonFail", "MonWake", "Remove", "RemoveUnknown", "ERR", "RW", "Restart"}
+		alpha := []string{"Reg", "Start", "StartWrong", "Add", "AddDup", "Sync", "Verify", "VerifyAny", "W", "R", "Snap", "Revert", "MonFail", "MonWake", "Remove", "RemoveUnknown", "ERR", "RW", "Restart"}
 		or := []string{"c18"}
 		mk := func(rf, n int, init []string) eb.Cfg {
 			return eb.Cfg{RF: rf, N: n, Alphabet: alpha, Oracles: or, Drain: false, MaxWrites: 2, MaxReads: 1, MaxSnaps: 1, MaxAdds: 3, MaxRestarts: 2, MaxRegs: 3, MaxFaults: 2, InitOps: init}
